@@ -253,6 +253,29 @@ pub fn run_modes(base: u64, cfg: &Cfg, calls: &[Value], others: &[(Cfg, Vec<Valu
         let _ = exec::run_instance(base + 7, oc, ocalls, &opts);
     }
     cmp("same-thread-again", Some(exec::run_instance(base + 1, cfg, calls, &opts)));
+    // (i-bis) same thread again, after a "sibling" muxer of the SAME configuration whose first video frame differs
+    // in one byte (every byte position in turn: a changed parameter set, a changed slice): nothing a sibling saw
+    // may leak into this muxer
+    if let Some(fi) = calls.iter().position(|c| matches!(gs(c, "op"), "wv" | "wvd" | "ev")) {
+        let n = exec::bytes_of(&calls[fi]["data"]).len().min(48);
+        let mut worst: Option<RunResult> = None;
+        for p in 0..n {
+            let mut k2 = calls.to_vec();
+            let mut d = exec::bytes_of(&k2[fi]["data"]);
+            d[p] ^= 0x10;
+            k2[fi].as_object_mut().unwrap().insert("data".into(), exec::bytes_json(&d));
+            let _ = exec::run_instance(base + 7, cfg, &k2, &opts);
+            let b = exec::run_instance(base + 1, cfg, calls, &opts);
+            if b.crashed || b.bytes != a.bytes || b.outcomes != a.outcomes {
+                worst = Some(b);
+                break;
+            }
+            if p + 1 == n {
+                worst = Some(b);
+            }
+        }
+        cmp("same-thread-after-sibling", worst);
+    }
     // (i') the same behaviour again after the wall clock has moved on by more than a second
     if cfg.json.get("meta").is_some() {
         std::thread::sleep(std::time::Duration::from_millis(1100));
